@@ -36,27 +36,8 @@ ASSUMPTIONS = [
 ]
 
 
-@st.composite
-def _case(draw):
-    spec, layout = draw(S.world_and_layout())
-    info = S.Info(spec, layout)
-    nsteps = draw(st.integers(1, 3))
-    steps = []
-    for _ in range(nsteps):
-        t = draw(st.sampled_from(info.subs))
-        kind = info.kind[t]
-        entries = ["state"]
-        if kind in ("fock", "pol"):
-            entries.append("env")
-        entries += info.ces_of(t)
-        entry = draw(st.sampled_from(entries))
-        op = draw(S.op_for_kind(kind))
-        steps.append(dict(op=op, entry=entry, target=t))
-    return dict(spec=spec, layout=layout, contraction=draw(st.booleans()), steps=steps)
-
-
 def strategy(tier):
-    return _case()
+    return S.program_case(["op"], max_steps=3)
 
 
 def worker_init():
@@ -64,31 +45,15 @@ def worker_init():
 
 
 def run_case(case):
-    labels = []
-    try:
-        run = Run(case["spec"], case["layout"], case["contraction"])
-    except PrepFailed as e:
-        return dict(nontrivial=False, key=None, labels=["prep-failed:" + type(e.exc).__name__])
-    nontrivial = False
-    keyparts = []
-    for i, step in enumerate(case["steps"]):
-        t = step["target"]
-        try:
-            res = run.check_op(step["op"], step["entry"], [t], PROP)
-        except Malformed as m:
-            raise Violation("malformed-before-op", m.reason, dict(what=m.what, action="op"))
-        site = res["site"]
-        pre = res["pre"]
-        red = ref.ptrace(pre.rho, pre.dims, [pre.names.index(t)])
-        if np.max(np.real(np.diag(red))) < 1 - 1e-9:
-            nontrivial = True
-        labels.append(f"{site['entry']}/{site['storage']}/{site['rep']}")
-        labels.append("op:" + step["op"]["type"])
-        labels.append("outcome:" + res["outcome"])
-        if i > 0:
-            labels.append("second-or-later-op")
-        if res["outcome"] in ("rejected", "inconclusive-too-big"):
-            break  # what a rejected call leaves behind is C17's subject
-        keyparts.append((site["entry"], site["storage"], site["rep"], site["nblock"], step["op"]["type"]))
-    labels.append("contraction:" + str(case["contraction"]))
-    return dict(nontrivial=nontrivial, key=str(keyparts) + case_hash(case["layout"]), labels=labels)
+    from pw_verif.props._machine import run_program_case
+
+    # accept the older case format (steps with "target") of saved regressions
+    steps = []
+    for st_ in case["steps"]:
+        if "k" not in st_:
+            st_ = dict(k="op", entry=st_["entry"], targets=[st_["target"]], op=st_["op"])
+        steps.append(st_)
+    case = dict(case, steps=steps)
+    r = run_program_case(case, PROP, focus_kinds=("op",))
+    r["nontrivial"] = any(b.get("state", {}).get("cls") not in (None, "basis") for b in case["layout"]) or len(steps) > 1
+    return r
